@@ -1916,3 +1916,51 @@ unsafe fn box_free<T, A: Allocator>(ptr: NonNull<T>, alloc: A) {
 
     alloc.deallocate(ptr.cast(), layout);
 }
+
+/// Verification hook: read-only snapshot of the adoption bookkeeping.
+#[cfg(feature = "verif")]
+#[doc(hidden)]
+impl<T> Rc<T> {
+    /// Returns a copy of the link table of the allocation whose value lives at
+    /// `ptr` (as returned by [`Rc::as_ptr`]), in table iteration order, as
+    /// `(value address of the linked allocation, kind, count)` with kind
+    /// `0 = forward`, `1 = backward`, `2 = loopback`.
+    ///
+    /// Returns `None` if the allocation is marked dead. No handle is created
+    /// or dropped, so taking a snapshot never triggers a reachability trace.
+    ///
+    /// # Safety
+    ///
+    /// `ptr` must point into an allocation that has not been released.
+    #[must_use]
+    pub unsafe fn __verif_links(ptr: *const T) -> Option<alloc::vec::Vec<(usize, u8, usize)>> {
+        let rc = ManuallyDrop::new(Rc::<T>::from_raw(ptr));
+        if rc.inner().is_dead() {
+            return None;
+        }
+        let links = rc.inner().links().try_borrow().ok()?;
+        let mut snapshot = alloc::vec::Vec::new();
+        for (link, &count) in links.iter() {
+            let kind = match link.kind() {
+                crate::link::Kind::Forward => 0,
+                crate::link::Kind::Backward => 1,
+                crate::link::Kind::Loopback => 2,
+            };
+            let value = ptr::addr_of!((*link.as_ptr()).value) as usize;
+            snapshot.push((value, kind, count));
+        }
+        Some(snapshot)
+    }
+
+    /// Raw strong counter of the allocation whose value lives at `ptr`
+    /// (`usize::MAX` marks an allocation whose contents were moved out).
+    ///
+    /// # Safety
+    ///
+    /// `ptr` must point into an allocation that has not been released.
+    #[must_use]
+    pub unsafe fn __verif_raw_strong(ptr: *const T) -> usize {
+        let rc = ManuallyDrop::new(Rc::<T>::from_raw(ptr));
+        rc.inner().strong()
+    }
+}
